@@ -113,7 +113,7 @@ func TestC19Main(t *testing.T) {
 				default:
 					amount = 9000*gasUnit + 1
 				}
-				dcls := rapid.SampledFrom([]string{"nil", "empty", "20", "20", "19", "21", "marker", "2other", "int"}).Draw(rt, "dataClass")
+				dcls := rapid.SampledFrom([]string{"nil", "empty", "20", "20", "19", "21", "marker", "2other", "int", "20marker", "marker+1"}).Draw(rt, "dataClass")
 				var data any
 				rcv := u.ScriptHash().BytesBE()
 				switch dcls {
@@ -128,6 +128,13 @@ func TestC19Main(t *testing.T) {
 					data = append(users[0].ScriptHash().BytesBE(), 1)
 				case "marker":
 					data = marker
+				case "20marker":
+					// a receiver whose 20-byte address happens to start with the two marker bytes: a deposit like any other
+					rcv = append(append([]byte{}, marker...), users[(ui+1)%3].ScriptHash().BytesBE()[2:]...)
+					data = rcv
+				case "marker+1":
+					// three bytes that start with the marker: neither the marker nor an address
+					data = append(append([]byte{}, marker...), 0x01)
 				case "2other":
 					data = []byte{0x57, 0x0c}
 				case "int":
@@ -141,7 +148,7 @@ func TestC19Main(t *testing.T) {
 				o := w.c.Invoke([]neotest.Signer{u}, w.gas, "transfer", u.ScriptHash(), w.neofs, amount, data)
 				what := fmt.Sprintf("deposit of %d (%s) by user%d with data %s", amount, acls, ui, dcls)
 				h.Op("%s -> %s", what, o)
-				validData := dcls == "nil" || dcls == "empty" || dcls == "20"
+				validData := dcls == "nil" || dcls == "empty" || dcls == "20" || dcls == "20marker"
 				accept := (dcls == "marker" && amount >= 0) || (validData && amount > 0 && amount <= 9000*gasUnit)
 				ok := o.Halt
 				if b, isb := o.Bool(); o.Halt && isb && !b {
